@@ -100,8 +100,11 @@ func TestC12(t *testing.T) {
 		}
 		c.Delay = uint64(rapid.IntRange(1, 1<<30).Draw(t, "delay"))
 		c.Procs = rapid.SampledFrom([]int{2, 4, 8, 16}).Draw(t, "procs")
-		if rapid.IntRange(0, 3).Draw(t, "dist") == 0 {
+		if d := rapid.IntRange(0, 5).Draw(t, "dist"); d <= 1 {
 			c.Mode = "dist"
+			if d == 1 {
+				c.Mode = "dist-timesplit"
+			}
 			c.NParts = rapid.IntRange(1, 3).Draw(t, "nparts")
 			c.Parts = make([]int, len(c.Series))
 			for i := range c.Parts {
